@@ -16,14 +16,14 @@ T_ALL = ("for every automaton of the run CBMC decides, for ALL (state,label) pai
          "output chain lists exactly the patterns that are suffixes of its string (T1,T2,T34); by induction this covers haystacks "
          "of every length for that automaton")
 I_ALL = ("the iterator is decided to be the stated transducer over (transition function, outputs) for ALL 4-slot tables under the "
-         "representation invariant (8 slots in the thorough tier), from an arbitrary iterator state")
+         "representation invariant (8 slots in the thorough tier), from an arbitrary iterator state; a step counterexample is reported only with a public-API witness on a built automaton")
 
 CHECKS = {
     "C01": ("model_checking", T_ALL + "; " + I_ALL + " (I-ovl); plus bounded end-to-end runs of find_overlapping_iter on fully symbolic haystacks (L<=2 quick, L<=3 thorough) against a brute-force occurrence oracle",
             "bounded model checking (Kani->CBMC): table validation over all (state,label) + inductive iterator step over arbitrary small tables + bounded end-to-end vs brute-force oracle"),
     "C02": ("model_checking", T_ALL + "; find_iter decided over all 4-slot tables for two consecutive calls (restart from the root, absolute offsets); bounded end-to-end runs against the earliest-end/longest/restart oracle",
             "bounded model checking (Kani->CBMC): table validation + two-call iterator harness over arbitrary small tables + bounded end-to-end vs oracle"),
-    "C03": ("model_checking", "per leftmost-longest automaton CBMC decides for ALL (state,label) that next_state_leftmost and the output carried by every state equal a by-definition leftmost specification on strings (T1,T2lm,T34lm,T5); the leftmost iterator is decided to be the candidate-tracking transducer over all 4-slot tables (two calls); bounded end-to-end runs (L<=3/4 and concrete-prefix shapes) against the leftmost-longest oracle",
+    "C03": ("model_checking", "per leftmost-longest automaton CBMC decides for ALL (state,label) that next_state_leftmost and the output carried by every state equal a by-definition leftmost specification on strings (T1,T2lm,T34lm,T5); the leftmost iterator is decided to be the candidate-tracking transducer over all 4-slot tables (two calls); bounded end-to-end runs (L<=2 quick, L<=4 thorough, and concrete-prefix shapes) against the leftmost-longest oracle",
             "bounded model checking (Kani->CBMC): per-state validation against a definitional leftmost automaton + iterator transducer harness + bounded end-to-end vs oracle"),
     "C04": ("model_checking", "as C03 with the leftmost-first specification (earliest registered at the leftmost start; shadow-aware node set), on every registration order of 3-pattern sets with shadowing, each order being its own automaton",
             "bounded model checking (Kani->CBMC): per-state validation against a definitional leftmost-first automaton for all registration orders of small sets + bounded end-to-end vs oracle"),
@@ -37,7 +37,7 @@ CHECKS = {
             "bounded model checking (Kani->CBMC): both variants validated against the same occurrence semantics + decoder for all scalar values + bounded end-to-end on symbolic chars"),
     "C09": ("model_checking", "deserialize(serialize(x) ++ t) == (x, t), |serialize(x)| == serialized_bytes() and serialize(deserialize(b)) == b for ALL values of every component type (12 integer types, Empty, Option<NonZeroU32>, packed word, MatchKind, both State types, Output<V>, a user-defined fixed-width type, CodeMapper) and vectors of 0..3 elements with arbitrary content; whole images (both variants) whose vectors hold 0/1 element with arbitrary content: field order, match-kind byte, state count, remainder slice, serialize() reproducing the image",
             "bounded model checking (Kani->CBMC) of every (de)serialiser on arbitrary values; whole-image round trip bounded to 0/1-element vectors (larger images are outside CBMC's reach here, DESIGN 8.4)"),
-    "C11": ("model_checking", "the same multi-block pattern sets are built by the real builder with num_free_blocks in {1,2,16} (thorough: {1,2,3,16,64}); every build is validated against the SAME by-definition reference for all (state,label) (T1,T5 quick; T1,T2,T34,T6 thorough), so all builds answer every search identically, stay memory safe and report the same state count",
+    "C11": ("model_checking", "the same multi-block pattern sets are built by the real builder with num_free_blocks in {1,2,3,16} (thorough: {1,2,3,5,16,64}; values are enumerated, not symbolic); every build is validated against the SAME by-definition reference for all (state,label) (T1,T5 quick; T1,T2,T34,T6 thorough), so all builds answer every search identically, stay memory safe and report the same state count",
             "bounded model checking (Kani->CBMC): table validation of each num_free_blocks build against one reference"),
     "C12": ("model_checking", "for ALL 4-slot tables and all haystacks <= 2 bytes / 2 arbitrary chars: every next() of the three *_from_iter methods returns the slice entry point's match, exactly m.end() bytes have been pulled from a counting source at that moment, exactly len at the final None; the source's size_hint lower bound is an arbitrary valid value",
             "bounded model checking (Kani->CBMC) with an instrumented counting source over arbitrary small tables"),
